@@ -531,6 +531,18 @@ void run_copies(RunCtx& cx) {
         bool oeof = false;
         return new CDNS::CdnsBlockRead(ord.read_block(oeof));
     };
+    // a CdnsBlockRead source may already have been read from (its read position is not part of its value)
+    if (rsrc && r.coin()) {
+        bool end = false;
+        unsigned k = (unsigned)r.range(1, 4);
+        for (unsigned i = 0; i < k && !end; i++) rsrc->read_generic_qr(end);
+        end = false;
+        for (unsigned i = 0; i < k && !end; i++) rsrc->read_generic_mm(end);
+        end = false;
+        if (r.coin()) rsrc->read_generic_aec(end);
+        cx.tag("source-partly-read");
+        cx.ctr->add("probe.copy_of_partly_read_block");
+    }
     // ---- make the second block ------------------------------------------------------------------------------
     switch (how) {
         case 0: cpy.reset(new CDNS::CdnsBlock(*S)); break;
@@ -563,6 +575,17 @@ void run_copies(RunCtx& cx) {
     // ---- operations on the copy (ops of the plan) --------------------------------------------------------------
     std::string got = block_content(*C, sets, "got", cx);
     if (got != want) cx.violation("C19", std::string("C19/I28/copy-content-differs/") + HOW[how], std::string("block obtained by ") + HOW[how] + " serialises differently from its source (source then " + FATE[fate] + ")");
+    // a CdnsBlockRead obtained from another one delivers every record from the start, like a block freshly read from the file
+    if (rcpy && !file_bytes.empty()) {
+        std::istringstream is3(file_bytes);
+        CDNS::CdnsReader rd3(is3);
+        bool eof3 = false;
+        CDNS::CdnsBlockRead fresh = rd3.read_block(eof3);
+        model::VBlock vw = model::view_block(fresh), vg = model::view_block(*rcpy);
+        if (vw.qr != vg.qr || vw.mm != vg.mm || vw.aec != vg.aec)
+            cx.violation("C19", std::string("C19/I28/copy-delivers-other-records/") + HOW[how], std::string("read_generic_* on the block obtained by ") + HOW[how] + " delivered " + std::to_string(vg.qr.size()) + "/" + std::to_string(vg.aec.size()) + "/" +
+                                                                                              std::to_string(vg.mm.size()) + " records, a freshly read block " + std::to_string(vw.qr.size()) + "/" + std::to_string(vw.aec.size()) + "/" + std::to_string(vw.mm.size()));
+    }
     if (C->full() != want_full)
         cx.violation("C19", std::string("C19/I28/copy-behaves-differently/full/") + HOW[how], std::string("full() of the block obtained by ") + HOW[how] + " is " + (C->full() ? "true" : "false") + ", of its source " + (want_full ? "true" : "false"));
     // a freshly built twin for comparing behaviour
@@ -771,12 +794,16 @@ void run_copied_hints(RunCtx& cx) {
 // C09 at the structure level: FilePreamble / BlockParameters / StorageParameters / StorageHints / CollectionParameters are
 // written with their own write() and read back with their own read() — into a fresh object and into an object that already
 // holds OTHER values (a configuration object that is reused): whatever the object held before must not survive as a phantom member.
+// (the structure is preceded by a byte string of `pad` bytes, so that its members meet the encoder's 2048-byte staging buffer at
+//  every alignment; read_struct_pad() consumes it again)
+static size_t g_pad = 0;
 template <class Wr>
 std::string serialise_struct(const char* tag, Wr wr) {
     simfs::FS& F = simfs::fs();
     std::string name = std::string("/sim/c09-") + tag;
     {
         CDNS::CdnsEncoder enc(name, CDNS::CborOutputCompression::NO_COMPRESSION);
+        enc.write_bytestring(std::string(g_pad, 'p'));
         wr(enc);
     }
     std::string bytes = F.exists(name) ? F.get(name) : std::string();
@@ -809,6 +836,7 @@ void run_preamble_objects(RunCtx& cx) {
     make_fp(A);
     make_fp(B);
     cx.n_ops = 5;
+    g_pad = (size_t)r.below(2100);
     static const char* SN[] = {"FilePreamble", "BlockParameters", "StorageParameters", "StorageHints", "CollectionParameters"};
     auto V = [&](unsigned k, const char* how, const std::string& want, const std::string& got) {
         cx.violation("C09", std::string("C09/I25/structure-read-back-differs/") + SN[k] + "/" + how, std::string(SN[k]) + "::read into " + how + ": got " + got.substr(0, 300) + " want " + want.substr(0, 300));
@@ -819,30 +847,30 @@ void run_preamble_objects(RunCtx& cx) {
         if (cx.kept(0)) {
             std::string bytes = serialise_struct("fp", [&](CDNS::CdnsEncoder& e) { A.write(e); });
             std::string want = canon_text(A);
-            { std::istringstream is(bytes); CDNS::CdnsDecoder d(is); CDNS::FilePreamble f; f.read(d); if (canon_text(f) != want) V(0, "a-fresh-object", want, canon_text(f)); }
-            { std::istringstream is(bytes); CDNS::CdnsDecoder d(is); CDNS::FilePreamble f = B; f.read(d); if (canon_text(f) != want) V(0, "a-used-object", want, canon_text(f)); }
+            { std::istringstream is(bytes); CDNS::CdnsDecoder d(is); d.read_bytestring(); CDNS::FilePreamble f; f.read(d); if (canon_text(f) != want) V(0, "a-fresh-object", want, canon_text(f)); }
+            { std::istringstream is(bytes); CDNS::CdnsDecoder d(is); d.read_bytestring(); CDNS::FilePreamble f = B; f.read(d); if (canon_text(f) != want) V(0, "a-used-object", want, canon_text(f)); }
         }
         if (cx.kept(1)) {
             CDNS::BlockParameters a = a0;
             std::string bytes = serialise_struct("bp", [&](CDNS::CdnsEncoder& e) { a.write(e); });
             std::string want = canon_text(ppl::canon_params(a0));
-            { std::istringstream is(bytes); CDNS::CdnsDecoder d(is); CDNS::BlockParameters f; f.read(d); if (canon_text(ppl::canon_params(f)) != want) V(1, "a-fresh-object", want, canon_text(ppl::canon_params(f))); }
-            { std::istringstream is(bytes); CDNS::CdnsDecoder d(is); CDNS::BlockParameters f = b0; f.read(d); if (canon_text(ppl::canon_params(f)) != want) V(1, "a-used-object", want, canon_text(ppl::canon_params(f))); }
+            { std::istringstream is(bytes); CDNS::CdnsDecoder d(is); d.read_bytestring(); CDNS::BlockParameters f; f.read(d); if (canon_text(ppl::canon_params(f)) != want) V(1, "a-fresh-object", want, canon_text(ppl::canon_params(f))); }
+            { std::istringstream is(bytes); CDNS::CdnsDecoder d(is); d.read_bytestring(); CDNS::BlockParameters f = b0; f.read(d); if (canon_text(ppl::canon_params(f)) != want) V(1, "a-used-object", want, canon_text(ppl::canon_params(f))); }
         }
         if (cx.kept(2)) {
             CDNS::BlockParameters a = a0;
             a.collection_parameters = boost::none;
             std::string bytes = serialise_struct("sp", [&](CDNS::CdnsEncoder& e) { a.storage_parameters.write(e); });
             std::string want = canon_text(ppl::canon_params(a));
-            { std::istringstream is(bytes); CDNS::CdnsDecoder d(is); CDNS::BlockParameters f; f.storage_parameters.read(d); if (canon_text(ppl::canon_params(f)) != want) V(2, "a-fresh-object", want, canon_text(ppl::canon_params(f))); }
-            { std::istringstream is(bytes); CDNS::CdnsDecoder d(is); CDNS::BlockParameters f = b0; f.collection_parameters = boost::none; f.storage_parameters.read(d); if (canon_text(ppl::canon_params(f)) != want) V(2, "a-used-object", want, canon_text(ppl::canon_params(f))); }
+            { std::istringstream is(bytes); CDNS::CdnsDecoder d(is); d.read_bytestring(); CDNS::BlockParameters f; f.storage_parameters.read(d); if (canon_text(ppl::canon_params(f)) != want) V(2, "a-fresh-object", want, canon_text(ppl::canon_params(f))); }
+            { std::istringstream is(bytes); CDNS::CdnsDecoder d(is); d.read_bytestring(); CDNS::BlockParameters f = b0; f.collection_parameters = boost::none; f.storage_parameters.read(d); if (canon_text(ppl::canon_params(f)) != want) V(2, "a-used-object", want, canon_text(ppl::canon_params(f))); }
         }
         if (cx.kept(3)) {
             CDNS::StorageHints h = a0.storage_parameters.storage_hints;
             std::string bytes = serialise_struct("sh", [&](CDNS::CdnsEncoder& e) { h.write(e); });
             auto txt = [](const CDNS::StorageHints& x) { return std::to_string(x.query_response_hints) + "/" + std::to_string(x.query_response_signature_hints) + "/" + std::to_string((unsigned)x.rr_hints) + "/" + std::to_string((unsigned)x.other_data_hints); };
-            { std::istringstream is(bytes); CDNS::CdnsDecoder d(is); CDNS::StorageHints f; f.read(d); if (txt(f) != txt(h)) V(3, "a-fresh-object", txt(h), txt(f)); }
-            { std::istringstream is(bytes); CDNS::CdnsDecoder d(is); CDNS::StorageHints f = b0.storage_parameters.storage_hints; f.read(d); if (txt(f) != txt(h)) V(3, "a-used-object", txt(h), txt(f)); }
+            { std::istringstream is(bytes); CDNS::CdnsDecoder d(is); d.read_bytestring(); CDNS::StorageHints f; f.read(d); if (txt(f) != txt(h)) V(3, "a-fresh-object", txt(h), txt(f)); }
+            { std::istringstream is(bytes); CDNS::CdnsDecoder d(is); d.read_bytestring(); CDNS::StorageHints f = b0.storage_parameters.storage_hints; f.read(d); if (txt(f) != txt(h)) V(3, "a-used-object", txt(h), txt(f)); }
         }
         if (cx.kept(4)) {
             CDNS::BlockParameters a = a0, b = b0;
@@ -850,8 +878,8 @@ void run_preamble_objects(RunCtx& cx) {
             if (!b.collection_parameters) { CDNS::CollectionParameters c; c.promisc = true; c.snaplen = 77; c.filter = std::string("decoy"); c.interfaces.push_back("decoy0"); c.vlan_ids.push_back(9); c.server_address.push_back(std::string(4, 'x')); b.collection_parameters = c; }
             std::string bytes = serialise_struct("cp", [&](CDNS::CdnsEncoder& e) { a.collection_parameters->write(e); });
             std::string want = canon_text(ppl::canon_params(a));
-            { std::istringstream is(bytes); CDNS::CdnsDecoder d(is); CDNS::BlockParameters f = a; f.collection_parameters = CDNS::CollectionParameters(); f.collection_parameters->read(d); if (canon_text(ppl::canon_params(f)) != want) V(4, "a-fresh-object", want, canon_text(ppl::canon_params(f))); }
-            { std::istringstream is(bytes); CDNS::CdnsDecoder d(is); CDNS::BlockParameters f = a; f.collection_parameters = *b.collection_parameters; f.collection_parameters->read(d); if (canon_text(ppl::canon_params(f)) != want) V(4, "a-used-object", want, canon_text(ppl::canon_params(f))); }
+            { std::istringstream is(bytes); CDNS::CdnsDecoder d(is); d.read_bytestring(); CDNS::BlockParameters f = a; f.collection_parameters = CDNS::CollectionParameters(); f.collection_parameters->read(d); if (canon_text(ppl::canon_params(f)) != want) V(4, "a-fresh-object", want, canon_text(ppl::canon_params(f))); }
+            { std::istringstream is(bytes); CDNS::CdnsDecoder d(is); d.read_bytestring(); CDNS::BlockParameters f = a; f.collection_parameters = *b.collection_parameters; f.collection_parameters->read(d); if (canon_text(ppl::canon_params(f)) != want) V(4, "a-used-object", want, canon_text(ppl::canon_params(f))); }
         }
         cx.ctr->add("preamble_structures_read_back", 10);
     } catch (std::exception& e) {
@@ -912,7 +940,7 @@ void run_direct_blocks(RunCtx& cx) {
         if (!cx.kept(k)) continue;
         bool timed = !q.chance(1, 3);
         CDNS::Timestamp t = near_base(q);
-        bool full_before_model;
+        bool full_before_model, aec_refused = false;
         bool ret;
         std::string what;
         switch (q.below(4)) {
@@ -946,12 +974,14 @@ void run_direct_blocks(RunCtx& cx) {
                 x.ae_type = CDNS::AddressEventTypeValues::tcp_reset; ga.ae_type = x.ae_type;
                 x.ae_address_index = blk.add_ip_address(ip); ga.ip_address = ip;
                 ret = blk.add_address_event_count(x);
-                want_aec[ref::dump(model::to_mrec_key(ga))]++;
+                // (this overload, unlike the other two, consults the block's hints: nothing is stored and false is returned when address events are excluded)
+                aec_refused = !(sets[0].storage_parameters.storage_hints.other_data_hints & 2);
+                if (!aec_refused) want_aec[ref::dump(model::to_mrec_key(ga))]++;
                 what = "add AddressEventCount";
                 break;
             }
         }
-        full_before_model = want_qr.size() >= maxi || want_mm.size() >= maxi || want_aec.size() >= maxi;
+        full_before_model = !aec_refused && (want_qr.size() >= maxi || want_mm.size() >= maxi || want_aec.size() >= maxi);
         if (ret != full_before_model)
             cx.violation("C12", "C12/I08/direct-add-return-value", what + " returned " + (ret ? "true" : "false") + " (block full) with arrays " + std::to_string(want_qr.size()) + "/" + std::to_string(want_aec.size()) + "/" + std::to_string(want_mm.size()) + ", max_block_items " + std::to_string(maxi));
         cx.log.ev("DIRECT " + what);
@@ -1012,5 +1042,6 @@ void sim::engine_objects(RunCtx& cx) {
     else if (cx.prop == "C11") run_tables(cx);
     else if (cx.prop == "C04") run_copied_hints(cx);
     else if (cx.prop == "C09") run_preamble_objects(cx);
+    else if (cx.prop == "C12") run_direct_blocks(cx);
     else run_copies(cx);
 }
